@@ -22,6 +22,7 @@ SameVocabulary ==
   /\ Cardinality({e.prefix[k] : k \in AtomKinds}) = 7
   /\ {<<b[1], b[2]>> : b \in Rng(x.set_brackets_prefix_order)} \ {<<"", "">>} = {<<e.se_l, e.se_r>>, <<e.si_l, e.si_r>>}
   /\ x.comp_l = e.comp_l /\ x.comp_r = e.comp_r /\ x.sep = e.sep /\ x.st_l = e.st_l /\ x.st_r = e.st_r
+  /\ VocabAll.classes[name].name_class_diff = <<>>        \* same name alphabet, over ALL Unicode scalar values (computed by the dump)
   /\ x.truth_l = e.truth_l /\ x.truth_r = e.truth_r /\ x.truth_sep = e.truth_sep
   /\ x.bud_l = e.bud_l /\ x.bud_r = e.bud_r /\ x.bud_sep = e.bud_sep
   /\ {<<b[1], b[2]>> : b \in Rng(x.stamp_brackets_suffix_order)} =
